@@ -445,8 +445,8 @@ example : operate trEx "c=a/0".toList = (.error "err:zerodiv", trEx) := by
 example : denoteM trEx (.bin '+' (.call ['D', 'I', 'O', 'D', 'E'] (.var ['a'])) (.call ['A', 'R', 'G', 'M', 'A', 'X'] (.var ['b'])))
     = .ok (.vec [3, 2, 6]) := by rfl
 
-/-- `operate("a/factor+k", {'factor': 2, 'k': 10})` on the toy scalar -/
-example : (operateX [(['f', 'a', 'c', 't', 'o', 'r'], 2), (['k'], 10)] trEx "b/factor+k".toList).1.toOption = some (some [11, 11, 12]) := by
+/-- `operate("b*factor+k", {'factor': 2, 'k': 10})` on the toy scalar -/
+example : (operateX [(['f', 'a', 'c', 't', 'o', 'r'], 2), (['k'], 10)] trEx "b*factor+k".toList).1.toOption = some (some [14, 14, 20]) := by
   decide +kernel
 
 /-- `Track["(a+b)*2"]` is `operate("(a+b)*2")`; but `Track["SUM{a}"]` looks up a feature called `SUM{a}` while
